@@ -29,7 +29,7 @@ type c03J struct {
 
 // c03Cnt counts, per group, the values and pairs that went through an oracle
 // (a group that was silently skipped must not pass).
-type c03Cnt struct{ points, scalars, ppairs, spairs, walk atomic.Int64 }
+type c03Cnt struct{ points, scalars, ppairs, spairs, walk, ssetters, psetters atomic.Int64 }
 
 func (j *c03J) viol(kind, class, check, what, msg string, d map[string]any) {
 	d["group"] = j.g.Name
@@ -474,6 +474,15 @@ func (j *c03J) pointPair(x, y c03P, eq bool, rel string) {
 	j.r.NoteAdd(fmt.Sprintf("pairs/point/expected-equal=%v", eq), 1)
 	j.cnt.ppairs.Add(1)
 	j.pairVerdict("point", rel, x.route, y.route, eq, ab, ba, ab2, dab, ea, eb, err)
+	if eq && bytes.Equal(ea, eb) {
+		// the same value must also behave the same: P+P and P+Q from either object
+		// (a representation with a stale internal field encodes alike but computes differently)
+		da, db, dm := groups.Enc(g.Point().Add(a, a)), groups.Enc(g.Point().Add(b, b)), groups.Enc(g.Point().Add(a, b))
+		if !bytes.Equal(da, db) || !bytes.Equal(da, dm) {
+			j.viol("point", "pair", rel, "same-value-behaves-differently", "two objects with Equal values and identical encodings give different sums",
+				map[string]any{"relation": rel, "a": x.route, "b": y.route, "enc": mon.Hex(ea), "a+a": mon.Hex(da), "b+b": mon.Hex(db), "a+b": mon.Hex(dm)})
+		}
+	}
 	j.r.SampleClass(fmt.Sprintf("ppair:%v", eq), map[string]any{"group": g.Name, "kind": "point-pair", "relation": rel, "a": x.route, "b": y.route, "same": eq, "enc_a": mon.Hex(ea), "enc_b": mon.Hex(eb)})
 }
 
@@ -493,6 +502,15 @@ func (j *c03J) scalarPair(x, y c03S, eq bool, rel string) {
 	j.r.NoteAdd(fmt.Sprintf("pairs/scalar/expected-equal=%v", eq), 1)
 	j.cnt.spairs.Add(1)
 	j.pairVerdict("scalar", rel, x.route, y.route, eq, ab, ba, ab2, dab, ea, eb, err)
+	if eq && bytes.Equal(ea, eb) {
+		one := g.Scalar().One()
+		da, db := groups.Enc(g.Scalar().Add(a, one)), groups.Enc(g.Scalar().Add(b, one))
+		ma, mb := groups.Enc(g.Scalar().Mul(a, a)), groups.Enc(g.Scalar().Mul(b, a))
+		if !bytes.Equal(da, db) || !bytes.Equal(ma, mb) {
+			j.viol("scalar", "pair", rel, "same-value-behaves-differently", "two objects with Equal values and identical encodings give different sums or products",
+				map[string]any{"relation": rel, "a": x.route, "b": y.route, "enc": mon.Hex(ea), "a+1": mon.Hex(da), "b+1": mon.Hex(db), "a*a": mon.Hex(ma), "b*a": mon.Hex(mb)})
+		}
+	}
 	j.r.SampleClass(fmt.Sprintf("spair:%v", eq), map[string]any{"group": g.Name, "kind": "scalar-pair", "relation": rel, "a": x.route, "b": y.route, "same": eq, "enc_a": mon.Hex(ea), "enc_b": mon.Hex(eb)})
 }
 
@@ -583,7 +601,7 @@ func (j *c03J) walk(b *c03B, idx, steps int) {
 // ---------------------------------------------------------------------------
 
 func c03(r *mon.R) {
-	r.SetRule("per group (20 instances): (a) point values built by recipes — routes to the identity (Null, Neg(Null), P-P, 0*P, kB+(q-k)B ...), to the base, multiples by edge scalars, random Add/Sub/Neg/double chains over the base and opaque Pick/Embed/Hash/pairing-output points (non-normalised internal forms), Mul outputs, opaque points and their P+G-G forms, Set/Clone/decoded copies; (b) reduced scalars — 0, 1, q-1 by every route, edge values (2^k, 2^k+-1, short values with leading zero bytes), SetInt64 incl. negatives, SetBytes of long/unreduced/zero-padded input, Pick, arithmetic results, copies; each value goes through the battery: length = MarshalSize = Group.PointLen/ScalarLen, two encodings identical, value Equal to a never-encoded twin and behaving like it afterwards, decode succeeds / Equal / re-encodes byte-identically (fresh and used receiver), MarshalTo / UnmarshalFrom (also with 1-byte reads) / util/encoding hex functions move exactly these bytes; (c) pairs whose (in)equality the harness knows from a discrete-log / residue shadow: Equal both ways, before and after encoding, must coincide with byte-identity and with the shadow; (d) walks over consecutive multiples k*B accumulated by Add, cheap checks at every step and the battery on every encoding that has a coordinate with leading zero bytes. distinct = (group, class, construction route); non-trivial = value checks: the value is not a constant made directly on a fresh receiver (Null(), Base()/pairing of bases, Zero(), One()); pair checks: the two values are built by different routes")
+	r.SetRule("per group (20 instances): (a) point values built by recipes — routes to the identity (Null, Neg(Null), P-P, 0*P, kB+(q-k)B ...), to the base, multiples by edge scalars, random Add/Sub/Neg/double chains over the base and opaque Pick/Embed/Hash/pairing-output points (non-normalised internal forms), Mul outputs, opaque points and their P+G-G forms, Set/Clone/decoded copies; (b) reduced scalars — 0, 1, q-1 by every route, edge values (2^k, 2^k+-1, short values with leading zero bytes), SetInt64 incl. negatives, SetBytes of long/unreduced/zero-padded input, Pick, arithmetic results, copies; each value goes through the battery: length = MarshalSize = Group.PointLen/ScalarLen, two encodings identical, value Equal to a never-encoded twin and behaving like it afterwards, decode succeeds / Equal / re-encodes byte-identically (fresh and used receiver), MarshalTo / UnmarshalFrom (also with 1-byte reads) / util/encoding hex functions move exactly these bytes; (c) pairs whose (in)equality the harness knows from a discrete-log / residue shadow: Equal both ways, before and after encoding, must coincide with byte-identity and with the shadow; (e) every setter-type operation (scalars: Zero, One, SetInt64, SetBytes, Pick, Set, UnmarshalBinary, UnmarshalFrom; points: Null, Base, Pick, Embed, Hash, Set, UnmarshalBinary, UnmarshalFrom where supported) applied to a receiver that already holds a full-width / non-normalised value, a short / special value (0, 1, small; identity, generator), or the result of another kind of setter: the value left in the reused object goes through the same battery and must be Equal both ways and byte-identical to the value the same setter leaves in a fresh receiver; (d) walks over consecutive multiples k*B accumulated by Add, cheap checks at every step and the battery on every encoding that has a coordinate with leading zero bytes. distinct = (group, class, construction route); non-trivial = value checks: the value is not a constant made directly on a fresh receiver (Null(), Base()/pairing of bases, Zero(), One()); pair checks: the two values are built by different routes")
 	r.Assume("math/big arithmetic mod q is the reference that decides which scalars / discrete-log shadows denote the same value")
 	r.Assume("opaque generators (Pick/Embed/Hash/pairing outputs with random arguments) are linearly independent of the base and of each other (fails with probability ~2^-250)")
 	r.Assume("every group has odd prime order, so P != -P and P != 2P for P != O")
@@ -625,6 +643,17 @@ func c03(r *mon.R) {
 		for i := 0; i*2*per < nsp; i++ {
 			jobs = append(jobs, job{g, "scalar-pairs", i, 2 * per})
 		}
+		// setters on receivers that already hold a value: n = rounds of (every setter x every prefill kind)
+		nss, nps := r.N(4, 80), r.N(2, 40)
+		if g.Kind == "GT" || g.Kind == "G2" {
+			nps = r.N(1, 20)
+		}
+		for i := 0; i < nss; i++ {
+			jobs = append(jobs, job{g, "scalar-setters", i, 1})
+		}
+		for i := 0; i < nps; i++ {
+			jobs = append(jobs, job{g, "point-setters", i, 1})
+		}
 	}
 	// interleave groups so that expensive groups do not pile up at the end
 	rngOrder := gen.New(r.Seed, "C03order", 0)
@@ -636,7 +665,7 @@ func c03(r *mon.R) {
 			rng := gen.New(r.Seed, "C03"+jb.kind+jb.g.Name, jb.idx)
 			j := &c03J{r: r, g: jb.g, cnt: cnts[jb.g.Name]}
 			nOpaque := 2
-			if jb.kind == "walk" || jb.kind == "scalars" || jb.kind == "scalar-pairs" {
+			if jb.kind == "walk" || jb.kind == "scalars" || jb.kind == "scalar-pairs" || jb.kind == "scalar-setters" {
 				nOpaque = 0
 			}
 			b := c03NewB(jb.g, rng, nOpaque)
@@ -670,6 +699,36 @@ func c03(r *mon.R) {
 				for _, s := range specs {
 					r.Guard("C03/"+jb.g.Name+"/scalar/"+s.class+"/battery", map[string]any{"group": jb.g.Name, "route": s.route}, func() { j.scalar(s) })
 				}
+			case "scalar-setters":
+				for round := 0; round < jb.n; round++ {
+					for _, name := range c03ScalarSetterNames {
+						for _, kind := range c03PrefillKinds {
+							st := b.sSetter(name)
+							reused, fresh := b.sReused(st, b.sPrefill(kind, name), kind), b.sOnFresh(st)
+							rel := "reused." + name + "=fresh"
+							det := map[string]any{"group": jb.g.Name, "route": reused.route}
+							r.Op("Scalar." + name + "/used-receiver")
+							r.Guard("C03/"+jb.g.Name+"/scalar/"+reused.class+"/battery", det, func() { j.scalar(reused) })
+							r.Guard("C03/"+jb.g.Name+"/scalar/pair/"+rel, det, func() { j.scalarPair(reused, fresh, true, rel) })
+							j.cnt.ssetters.Add(1)
+						}
+					}
+				}
+			case "point-setters":
+				for round := 0; round < jb.n; round++ {
+					for _, name := range b.pointSetterNames() {
+						for _, kind := range c03PrefillKinds {
+							st := b.pSetter(name)
+							reused, fresh := b.pReused(st, b.pPrefill(kind, name), kind), b.pOnFresh(st)
+							rel := "reused." + name + "=fresh"
+							det := map[string]any{"group": jb.g.Name, "route": reused.route}
+							r.Op("Point." + name + "/used-receiver")
+							r.Guard("C03/"+jb.g.Name+"/point/"+reused.class+"/battery", det, func() { j.point(reused) })
+							r.Guard("C03/"+jb.g.Name+"/point/pair/"+rel, det, func() { j.pointPair(reused, fresh, true, rel) })
+							j.cnt.psetters.Add(1)
+						}
+					}
+				}
 			case "scalar-pairs":
 				for k := 0; k < jb.n; k++ {
 					x, y, eq, rel := b.sPair()
@@ -684,9 +743,9 @@ func c03(r *mon.R) {
 	}
 	for _, g := range gs {
 		c := cnts[g.Name]
-		if c.points.Load() == 0 || c.scalars.Load() == 0 || c.ppairs.Load() == 0 || c.spairs.Load() == 0 || c.walk.Load() == 0 {
-			r.Inconclusive(fmt.Sprintf("group %s: a workload observed nothing (points=%d scalars=%d point-pairs=%d scalar-pairs=%d walk-steps=%d)",
-				g.Name, c.points.Load(), c.scalars.Load(), c.ppairs.Load(), c.spairs.Load(), c.walk.Load()))
+		if c.points.Load() == 0 || c.scalars.Load() == 0 || c.ppairs.Load() == 0 || c.spairs.Load() == 0 || c.walk.Load() == 0 || c.ssetters.Load() == 0 || c.psetters.Load() == 0 {
+			r.Inconclusive(fmt.Sprintf("group %s: a workload observed nothing (points=%d scalars=%d point-pairs=%d scalar-pairs=%d walk-steps=%d scalar-setters=%d point-setters=%d)",
+				g.Name, c.points.Load(), c.scalars.Load(), c.ppairs.Load(), c.spairs.Load(), c.walk.Load(), c.ssetters.Load(), c.psetters.Load()))
 		}
 	}
 }
